@@ -84,6 +84,22 @@ SEED_MESSAGE = [{"op": "hdr", "id": 4660, "opcode": 0, "bits": 256, "rcode": 0, 
                 {"op": "end"}]
 
 
+def sweep_jobs():
+    """padding boundary sweep: question-name label of 1..32 octets (32 consecutive message sizes) x pad {16,32,128} x TSIG
+    key {sharing a suffix, unrelated}: every residue of the pre-padding size modulo the block is hit, in particular the
+    one where the PADDING option is EMPTY"""
+    jobs = []
+    for ln in range(1, 33):
+        sc = [{"op": "hdr", "id": 4660, "opcode": 0, "bits": 256, "rcode": 0, "origin": False, "edns": EDNS["on"]},
+              {"op": "q", "name": [[120] * ln, EX], "type": 1, "cls": 1}, {"op": "end"}]
+        for pad in (16, 32, 128):
+            for kn in ("shared", "unrelated"):
+                for pt in (False, True):
+                    jobs.append(("sweep.q%d.p%d.%s.pt%d" % (ln, pad, kn, pt), sc,
+                                 {"pad": pad, "key": KEYS[kn], "pt": pt, "max": 512}))
+    return jobs
+
+
 def make_jobs(ctx, scripts, want, lo=520, hi=900):
     jobs = []
     used = 0
@@ -113,7 +129,7 @@ def run(ctx):
     quick = ctx.tier == "quick"
     ctx.rule = ("renderings = message script (TLC simulation of Gen_Renderer, kept when 520..900 octets) x EDNS {off,on,options} "
                 "x pad {0,16,128,468} x TSIG {none, unrelated key, key sharing a suffix} x prefer_truncation x EVERY max_size "
-                "512..total+1; distinct = distinct (message, configuration, limit); non-trivial = limit below the total size")
+                "512..total+1; plus a padding boundary sweep (32 consecutive question lengths x pad {16,32,128} x 2 keys); distinct = distinct (message, configuration, limit); non-trivial = limit below the total size")
     ctx.assumptions += ["TLC and CommunityModules Json are correct", "recording subclass / projection in drivers/c08_limits.py is faithful",
                         "TSIG MAC and signing time are observed values (C14 covers their correctness)",
                         "messages are chosen by seeded simulation; limits and configurations are exhaustive for each"]
@@ -126,6 +142,7 @@ def run(ctx):
         ctx.model("MC_RendererLimits", "MC_RendererLimits_quick.cfg" if quick else "MC_RendererLimits_thorough.cfg", workers=1)
         scripts = gen_scripts(ctx, 60 if quick else 400, ctx.seed + 1)
         jobs, used = make_jobs(ctx, scripts, 2 if quick else 16)
+        jobs += sweep_jobs()
         ctx.extra["messages"] = used
         ctx.log("%d messages -> %d renderings" % (used, len(jobs)))
         traces = ctx.pmap(c08_limits.run_job, jobs)
